@@ -107,16 +107,17 @@ FinalLine(l) == Has3(l) /\ l[4] = SP
 StartLine(l) == Has3(l) /\ l[4] = DASH
 
 \* Fold the lines of a stream with the RFC grammar.  State: <<codes so far, open code (0: none), ok>>
-\* The grammar is deliberately the narrow, unambiguous one (the lenient oracle): inside a multi-line
-\* reply a line that looks like the final line of ANY code makes the stream "not well-formed" unless it is the
-\* final line of the open reply; LF-only line ends and bare CRs make it not well-formed.
+\* The grammar is the narrow, unambiguous one (the lenient oracle): LF-only line ends and bare CRs make the stream
+\* "not well-formed"; inside a multi-line reply only the line with the code of the opening line ends the reply.
 RfcStep(st, l) ==
   IF ~st[3] \/ ~GoodEOL(l) THEN <<st[1], st[2], FALSE>>
   ELSE IF st[2] = 0
        THEN IF FinalLine(l) THEN <<Append(st[1], Code3(l)), 0, TRUE>>
             ELSE IF StartLine(l) THEN <<st[1], Code3(l), TRUE>>
             ELSE <<st[1], 0, FALSE>>
-       ELSE IF FinalLine(l) THEN (IF Code3(l) = st[2] THEN <<Append(st[1], st[2]), 0, TRUE>> ELSE <<st[1], st[2], FALSE>>)
+       \* RFC 959 4.2: the user-process searches for the second occurrence of THE SAME code followed by a space and
+       \* ignores all intermediary lines - also one that begins with another number and a space
+       ELSE IF FinalLine(l) /\ Code3(l) = st[2] THEN <<Append(st[1], st[2]), 0, TRUE>>
             ELSE st
 RECURSIVE RfcFold(_, _, _)
 RfcFold(st, ls, i) == IF i > Len(ls) THEN st ELSE RfcFold(RfcStep(st, ls[i]), ls, i + 1)
